@@ -64,7 +64,8 @@ def run(chk):
                 beta = np.concatenate([[1.0], rng.uniform(0.1, 1.5, size=q)]) * rng.uniform(0.5, 2.0)
                 info = dict(nreal=nreal, npair=npair, q=q, alpha=alpha.tolist(), beta=beta.tolist())
                 hist[f"{nreal}r{npair}c"] = hist.get(f"{nreal}r{npair}c", 0) + 1
-                kern = qs.CARMA(jnp.asarray(alpha), jnp.asarray(beta))
+                # both spellings of the polynomial constructor (the documented classmethod and the class itself), alternating
+                kern = (qs.CARMA.init if (nreal + npair + q) % 2 else qs.CARMA)(jnp.asarray(alpha), jnp.asarray(beta))
                 got = np.array([float(kern.evaluate(jnp.asarray(0.0), jnp.asarray(t))) for t in taus])
                 got_rev = np.array([float(kern.evaluate(jnp.asarray(t), jnp.asarray(0.0))) for t in taus])
                 want = companion_acvf(alpha, beta, taus)
